@@ -737,7 +737,8 @@ fn evaluate(env: &Env, case: &Case, dir: &Path) -> Verdict {
         && !ex.processed.is_empty()
         && (ex.features.contains("nested-or-repeated-src") || ex.features.contains("symlink") || ex.features.contains("dotted-name"));
     let text_of = |input: &Path| -> Option<String> { std::fs::read_to_string(if input.is_absolute() { input.to_path_buf() } else { cwd.join(input) }).ok() };
-    let kind = case.cfg.kind.clone();
+    // the two code paths that resolve output paths: a directory walk or a single file
+    let kind = if case.cfg.kind == "cli" || case.cfg.kind == "api-file" { "single-file" } else { "directory-walk" }.to_string();
 
     let before = snapshot(dir);
     for round in 0..2 {
@@ -1013,11 +1014,11 @@ pub fn run(ctx: Ctx, replay: Option<PathBuf>) -> i32 {
     }
     ck.extra.insert("grammars_processed_per_model".into(), json!(processed_total));
 
-    for (sig, i) in first_fail {
+    for (nth, (sig, i)) in first_fail.into_iter().enumerate() {
         let mut tape_min = tapes[i].clone();
-        if !ck.is_known(&sig) {
+        if !ck.is_known(&sig) && nth < 4 {
             let mut k = 0usize;
-            tape_min = tape::shrink_tape(&tapes[i], ctx.tier.pick(200, 500), |cand| {
+            tape_min = tape::shrink_tape(&tapes[i], ctx.tier.pick(100, 400), |cand| {
                 k += 1;
                 let case = gen_case(&mut Tape::new(cand), &texts);
                 let dir = env.ctx.work.join(format!("shrink/s{i}_{k}"));
